@@ -128,6 +128,9 @@ class ScalarAngle(RegionAttribute):
 
             if not value.unit.physical_type == 'angle':
                 raise ValueError(f'{self.name!r} must have angular units')
+
+            if not np.isfinite(value):
+                raise ValueError(f'{self.name!r} must be finite')
         else:
             raise ValueError(f'{self.name!r} must be a scalar angle')
 
